@@ -68,6 +68,30 @@ func c06Gen(r *rand.Rand, tier string, idx int) any {
 		c.Comp = r.Intn(2) == 0
 		c.Multi = r.Intn(3) == 0
 		c.Plan = limitDigits(genScript(r, c.Mode == "vi", 3+r.Intn(30)), 4)
+		if c.Mode == "vi" && len(c.Hist) > 0 && r.Intn(3) == 0 {
+			// history searches from command mode whose text is a whole entry (the cursor is put
+			// at the length of the text: the end of the line), or an incremental search
+			// cancelled by a key that is not a search command after a match was selected
+			e := pick(r, c.Hist)
+			if i := strings.IndexByte(e, '\n'); i >= 0 {
+				e = e[:i]
+			}
+			var tok []sess.Step
+			switch r.Intn(3) {
+			case 0:
+				tok = []sess.Step{{W: "\x1b", Tag: "esc"}, {W: "?", Tag: "search"}, {W: e, Tag: "pattern"}, {W: "\r", Tag: "search"}}
+			case 1:
+				tok = []sess.Step{{W: "\x1b", Tag: "esc"}, {W: "k", Tag: "hist"}, {W: "/", Tag: "search"}, {W: e, Tag: "pattern"}, {W: "\r", Tag: "search"}}
+			default:
+				sub := e
+				if len(sub) > 3 {
+					sub = sub[:3]
+				}
+				tok = []sess.Step{{W: "\x1b", Tag: "esc"}, {W: "\x12", Tag: "isearch"}, {W: sub, Tag: "pattern"}, {W: "\t", Tag: "select"}, {W: pick(r, []string{"\x0b", "\x01"}), Tag: "undefined-in-isearch"}}
+			}
+			at := r.Intn(len(c.Plan) + 1)
+			c.Plan = append(c.Plan[:at], append(tok, c.Plan[at:]...)...)
+		}
 		return c
 	}
 	c.Kind = "movement"
